@@ -20,6 +20,7 @@ elab "#audit " ns:ident : command => do
   for cname in md.constNames do
     if !nsName.isPrefixOf cname then continue
     if cname.isInternal then continue
+    if (cname.toString.splitOn ".eq_").length > 1 || (cname.toString.splitOn ".match_").length > 1 then continue
     let some ci := env.find? cname | continue
     let kind ← match ci with
       | .thmInfo _ => pure "theorem"
